@@ -388,7 +388,9 @@ pub fn check_point(pt: &Point) -> CheckResult {
     let mut rep = CaseReport::default();
     let scn = &pt.scn;
     let (mut run, out) = run_until_fault(scn, Some((pt.index, pt.kind.clone())))?;
-    let sig = |what: &str| format!("{what}:{:?}:{}:{:?}", scn.backend, pt.step, pt.kind);
+    // A finding is identified by its call site: backend, internal step, fault kind.  What the
+    // oracles observe afterwards is in the message.
+    let sig = |_what: &str| format!("{:?}:{}:{:?}", scn.backend, pt.step, pt.kind);
     if !out.fired {
         rep.class("fault-point-not-reached");
     }
